@@ -35,6 +35,7 @@ REQUIRED_REACH = [
     "stripe._BaseCubeCounts:_CatCubeCounts", "stripe._BaseCubeCounts:_MrCubeCounts",
     "stripe._BaseCubeCounts:_NumArrCubeCounts",
     "class:table=MR", "class:table=CAT", "class:table=ARR",
+    "class:near_logical_cat", "class:near_logical_array",
 ]
 BATCH = 60
 
@@ -109,6 +110,12 @@ def check_case(case):
         res.classes.append("table=%s" % o.typestr(0))
     if nd >= 2:
         res.classes.append("pair=%sx%s" % (o.typestr(nd - 2), o.typestr(nd - 1)))
+    for r, v in o.facets:
+        if r in ("cat", "ca_cats") and getattr(v, "kind", "cat") != "logical" and {
+                1, 0, -1} <= set(c["id"] for c in v.cats) and any(
+                c.get("selected") for c in v.cats):
+            # a 0/1-coded variable that is not a selection dimension (vlib/gen.py)
+            res.classes.append("near_logical_%s" % ("array" if r == "ca_cats" else "cat"))
     measures = [m for m in ("mean", "sum", "stddev", "median") if m in spec.measures]
 
     parts = read(cube, "partitions")
